@@ -115,6 +115,24 @@ def enum_wire_main():
     print("enum wire images: %d types, %d values" % (len(out), sum(len(v) for v in out.values())))
 
 
+def param_enums_main():
+    """corpus/C19/param_enums.json: for every command (by header) the enumeration / flag type of each parameter (or null), by
+    qualified name - the member values themselves are in vectors.json["enums"]"""
+    rows = extract_commands.table()
+    out = {}
+    for cls, qn, hdr, blocking, fl in rows:
+        keys = []
+        for p in cls.schema:
+            if isinstance(p.type, type) and issubclass(p.type, enum.Enum):
+                keys.append(p.type.__module__ + "." + p.type.__qualname__)
+            else:
+                keys.append(None)
+        out[str(hdr)] = keys
+    with open(os.path.join(HERE, "..", "corpus", "C19", "param_enums.json"), "w") as f:
+        json.dump(out, f)
+    print("parameter enum types: %d commands, %d enum-typed parameters" % (len(out), sum(1 for v in out.values() for k in v if k)))
+
+
 def main():
     rows = extract_commands.table()
     # Lean: wire views
@@ -193,5 +211,7 @@ def main():
 
 if __name__ == "__main__" and "--enum-wire" in sys.argv:
     enum_wire_main()
+elif __name__ == "__main__" and "--param-enums" in sys.argv:
+    param_enums_main()
 elif __name__ == "__main__":
     main()
